@@ -5,3 +5,13 @@ SPEC = connspec.spec('C11', 'check_C11', {50: 'connection_end_reported_twice', 5
 SPEC["streams"] = [dict(imports="From Ship Require Import Base HubModel HubStreams.", case_type="c10_case", check_fn="check_hub_C11",
                         drivers=[dict(bin="hubunit", args=["-prop", "C10"], n_quick=800, n_thorough=20000, timeout=2400)], codes={115: "close_report_removed_wrong_registry_entry", 116: "disconnect_notification_missing_or_repeated"})]
 SPEC["props_extra"] = ["props/C11_hub.v"]
+
+# causes that coincide on different goroutines (coq/theories/RegRace.v)
+SPEC["streams"] += [
+    dict(imports="From Ship Require Import Base RegRace.", case_type="rr_case", check_fn="check_regrace",
+         drivers=[dict(bin="hubunit", args=["-prop", "C11reg"], n_quick=240, n_thorough=3000)],
+         codes={153: "ended_connection_stays_registered"}),
+    dict(imports="From Ship Require Import Base RegRace.", case_type="cr_case", check_fn="check_closerace",
+         drivers=[dict(bin="shipdrv", args=["-prop", "closerace"], n_quick=4000, n_thorough=60000)],
+         codes={150: "end_reported_twice_by_coinciding_closers", 152: "end_never_reported_by_coinciding_closers"}),
+]
